@@ -490,6 +490,12 @@ func (e *Exec) checkBackEdge(f *frame, li *loopInfo, from *ssa.BasicBlock, k int
 				if phi.Comment != "" {
 					env.Vars[phi.Comment] = v
 				}
+				if phi.Comment == "rangeindex" {
+					// the ordinal-qualified name of THIS loop's index must see the value along the
+					// back edge too (it used to keep the header value, which made a step obligation
+					// written with rangeindexN hold trivially)
+					env.Vars[fmt.Sprintf("rangeindex%d", li.ordinal)] = v
+				}
 				env.Vars[phi.Name()] = v
 			}
 		}
@@ -497,6 +503,9 @@ func (e *Exec) checkBackEdge(f *frame, li *loopInfo, from *ssa.BasicBlock, k int
 	for _, inv := range e.loopInvariants(f, li) {
 		t := e.elabClause(env, inv)
 		e.oblig(st, "inv-step", fmt.Sprintf("loop%d.%s", li.ordinal, inv.ID), t, inv.Src, "")
+		// the invariants are proved in the order they are written: one that has its own obligation
+		// on this edge may be used for the ones after it (all of them have to be discharged)
+		e.S.assume(implies(st.Reach, t))
 	}
 }
 
